@@ -468,6 +468,7 @@ func (s *Store) inferParams(n *pg_query.Node, out map[int]ColType) {
 				}
 			}
 		}
+		s.inferInsertExtras(t, ins, note, walkWhere) // c04.go: ON CONFLICT DO UPDATE SET, INSERT ... SELECT
 	case n.GetUpdateStmt() != nil:
 		up := n.GetUpdateStmt()
 		t := s.tableOf(up.Relation)
@@ -832,6 +833,12 @@ func (s *Store) Describe(p *Prepared) ([]Field, error) {
 			return nil, sqlErr("relation does not exist")
 		}
 		ts, err = s.targets(&scope{[]*table{t}, []string{strings.ToLower(t.def.Name)}}, n.GetUpdateStmt().ReturningList)
+	case n.GetDeleteStmt() != nil && len(n.GetDeleteStmt().ReturningList) > 0: // c04.go
+		t := s.tableOf(n.GetDeleteStmt().Relation)
+		if t == nil {
+			return nil, sqlErr("relation does not exist")
+		}
+		ts, err = s.targets(&scope{[]*table{t}, []string{strings.ToLower(t.def.Name)}}, n.GetDeleteStmt().ReturningList)
 	default:
 		return nil, nil
 	}
@@ -868,8 +875,15 @@ func (x *execCtx) insert(ins *pg_query.InsertStmt) (*Result, error) {
 	if t == nil {
 		return nil, sqlErr("relation %q does not exist", ins.Relation.GetRelname())
 	}
+	if isInsertSelect(ins) { // c04.go
+		proposed, err := x.proposedFromSelect(t, ins)
+		if err != nil {
+			return nil, err
+		}
+		return x.applyInsert(t, ins, proposed)
+	}
 	if ins.SelectStmt == nil || ins.SelectStmt.GetSelectStmt() == nil || len(ins.SelectStmt.GetSelectStmt().ValuesLists) == 0 {
-		return nil, sqlErr("only INSERT ... VALUES is supported by the fake database")
+		return nil, sqlErr("only INSERT ... VALUES and INSERT ... SELECT ... FROM are supported by the fake database")
 	}
 	cols := x.s.insertCols(t, ins)
 	var newRows [][]Value
@@ -897,23 +911,7 @@ func (x *execCtx) insert(ins *pg_query.InsertStmt) (*Result, error) {
 		}
 		newRows = append(newRows, row)
 	}
-	t.rows = append(t.rows, newRows...)
-	res := &Result{Tag: fmt.Sprintf("INSERT 0 %d", len(newRows))}
-	if len(ins.ReturningList) > 0 {
-		sc := &scope{[]*table{t}, []string{strings.ToLower(t.def.Name)}}
-		ts, err := x.s.targets(sc, ins.ReturningList)
-		if err != nil {
-			return nil, err
-		}
-		var rs []map[*table][]Value
-		for _, r := range newRows {
-			rs = append(rs, map[*table][]Value{t: r})
-		}
-		pr := project(ts, rs)
-		pr.Tag = res.Tag
-		return pr, nil
-	}
-	return res, nil
+	return x.applyInsert(t, ins, newRows) // c04.go: ON CONFLICT, RETURNING
 }
 
 func (x *execCtx) update(up *pg_query.UpdateStmt) (*Result, error) {
@@ -943,7 +941,7 @@ func (x *execCtx) update(up *pg_query.UpdateStmt) (*Result, error) {
 			if c < 0 {
 				return nil, sqlErr("column %q does not exist", rt.Name)
 			}
-			v, err := x.constValue(rt.Val, t.def.Cols[c].Type)
+			v, err := x.assignValue(sc, map[*table][]Value{t: row}, rt.Val, t.def.Cols[c].Type) // c04.go: DEFAULT, columns
 			if err != nil {
 				return nil, err
 			}
@@ -972,7 +970,7 @@ func (x *execCtx) del(d *pg_query.DeleteStmt) (*Result, error) {
 		return nil, sqlErr("relation %q does not exist", d.Relation.GetRelname())
 	}
 	sc := &scope{[]*table{t}, []string{strings.ToLower(t.def.Name)}}
-	var keep [][]Value
+	var keep, gone [][]Value
 	n := 0
 	for _, row := range t.rows {
 		ok, err := x.evalCond(sc, map[*table][]Value{t: row}, d.WhereClause)
@@ -981,9 +979,18 @@ func (x *execCtx) del(d *pg_query.DeleteStmt) (*Result, error) {
 		}
 		if ok {
 			n++
+			gone = append(gone, row)
 		} else {
 			keep = append(keep, row)
 		}
+	}
+	if len(d.ReturningList) > 0 { // c04.go
+		res, err := x.returningOf(sc, t, d.ReturningList, gone, fmt.Sprintf("DELETE %d", n))
+		if err != nil {
+			return nil, err
+		}
+		t.rows = keep
+		return res, nil
 	}
 	t.rows = keep
 	return &Result{Tag: fmt.Sprintf("DELETE %d", n)}, nil
